@@ -198,7 +198,9 @@ func refersTo(repo *repository, iter descIter, digest ociregistry.Digest) (found
 			if b == nil {
 				break
 			}
-			miter, err := manifestReferences(info.desc.MediaType, b.data)
+			// Use the manifest's own media type: the media type in the
+			// referring descriptor is not checked against it.
+			miter, err := manifestReferences(b.mediaType, b.data)
 			if err != nil {
 				retErr = err
 				return false
